@@ -120,6 +120,13 @@ class GridFlow(WidgetWrap[Pile], WidgetContainerMixin, WidgetContainerListConten
         self._cache_maxcol = None
         super()._invalidate()
 
+    def selectable(self) -> bool:
+        """Return True if any of the cells is selectable.
+
+        Calculated from the contents: the display widget is regenerated lazily and can be outdated.
+        """
+        return any(w.selectable() for w, _options in self.contents)
+
     def _contents_modified(
         self,
         _slc: tuple[int, int, int],
